@@ -1,10 +1,11 @@
 SPECIFICATION Spec
 CONSTANTS
-  Scen1 <- ScenA
+  Scen1 <- ScenAC
   Scen2 <- JustNo
   ClearChoices = {FALSE}
   Installs = {TRUE}
   ResetsResult = TRUE
+  LateIgnored = TRUE
 CONSTRAINT ExportC
 INVARIANT ResultRight
 INVARIANT Guards
